@@ -141,7 +141,10 @@ impl Arena {
         let commit = self.commit.get();
         let offset = self.offset.get();
 
-        let beg = (offset + alignment - 1) & !(alignment - 1);
+        // Align the address, not the offset: the reservation is only page-aligned,
+        // so the two differ for alignments above the page size.
+        let base = self.base.as_ptr() as usize;
+        let beg = ((base + offset + alignment - 1) & !(alignment - 1)) - base;
         let end = beg + bytes;
 
         if end > commit {
